@@ -66,6 +66,42 @@ func init() {
 		}
 		return "ok " + core.Hex(val) + " " + core.Hex([]byte(full[consumed:]))
 	})
+	// C13.ident.quote <my|pg> <name-hex> → hex of the text printed for an identifier that was written in quotes
+	// (pg: ColIdent with quote mark, printed by writeQuotedID) or that has to be escaped (my: formatIDForDialect;
+	// the harness only sends names that need escaping)
+	core.Register("C13.ident.quote", func(a []string) string {
+		c16.SetDialect(a[0])
+		name := string(core.UnHex(a[1]))
+		if a[0] == "pg" {
+			return core.Hex([]byte(sqlparser.String(sqlparser.NewColIdentWithQuotes(name, '"'))))
+		}
+		return core.Hex([]byte(sqlparser.String(sqlparser.NewColIdent(name))))
+	})
+	// C13.ident.scan <my|pg> <hex of the input after the opening quote> → ok <name> <rest> | err
+	core.Register("C13.ident.scan", func(a []string) string {
+		in := core.UnHex(a[1])
+		var full string
+		var tkn *sqlparser.Tokenizer
+		if a[0] == "pg" {
+			full = "\"" + string(in)
+			tkn = sqlparser.NewStringTokenizerWithDialect(postgresql.NewPostgreSQLDialect(), full)
+		} else {
+			full = "`" + string(in)
+			tkn = sqlparser.NewStringTokenizerWithDialect(mysql.NewMySQLDialect(), full)
+		}
+		typ, val := tkn.Scan()
+		if typ == sqlparser.LEX_ERROR {
+			return core.Err
+		}
+		if typ != sqlparser.ID && typ != sqlparser.DOUBLE_QUOTE_STRING {
+			return fmt.Sprintf("other-token %d", typ)
+		}
+		consumed := tkn.Position - 1
+		if consumed < 0 || consumed > len(full) {
+			return fmt.Sprintf("bad-position %d", tkn.Position)
+		}
+		return "ok " + core.Hex(val) + " " + core.Hex([]byte(full[consumed:]))
+	})
 	// C13.roundtrip <dialect> <stmt-hex> → same | diff <where> | unparseable | reparse-fails <printed-hex>
 	core.Register("C13.roundtrip", func(a []string) string {
 		c16.SetDialect(a[0])
